@@ -258,10 +258,22 @@ Definition server_param_errors (d : directive) : list (string * string) :=
   | _ => []
   end.
 
+(* [sticky cookie NAME param ...;]: after the cookie name every parameter is KEY=VALUE or one of
+   httponly / secure (NGINX: invalid parameter otherwise) *)
+Definition sticky_param_errors (d : directive) : list (string * string) :=
+  match d with
+  | Dir n (m :: _ :: ps) None =>
+      if String.eqb n "sticky" && String.eqb m "cookie" then
+        flat_map (fun x => if contains "=" x || String.eqb x "httponly" || String.eqb x "secure"
+                           then [] else [("value", "sticky cookie " +++ x)]) ps
+      else []
+  | _ => []
+  end.
+
 Fixpoint arity_errors_d (d : directive) : list (string * string) :=
   match d with
   | Dir n a b =>
-      arity_of arity_table d ++ server_param_errors d ++
+      arity_of arity_table d ++ server_param_errors d ++ sticky_param_errors d ++
       match b with
       | None => []
       | Some ds =>
